@@ -166,7 +166,7 @@ def r142(ctx):
     of = tree.cls(FORMATTER, "OrderFormatter")
     fd = [s for s in of.body if isinstance(s, FUNC) and s.name == "format_data"][0]
     lead = 0
-    appended = {c.func.value.id for c in walk_local(fd) if isinstance(c, ast.Call) and isinstance(c.func, ast.Attribute) and c.func.attr == "append" and isinstance(c.func.value, ast.Name)}
+    appended = {c.func.value.id for c in walk_local(fd) if isinstance(c, ast.Call) and isinstance(c.func, ast.Attribute) and c.func.attr in ("append", "extend") and isinstance(c.func.value, ast.Name)}
     for n in walk_local(fd):
         if isinstance(n, ast.Assign) and isinstance(n.value, ast.List) and isinstance(n.targets[0], ast.Name) and n.targets[0].id in appended:
             lead = len(n.value.elts)
@@ -194,15 +194,42 @@ def r142(ctx):
         raise AnalysisError("R-14.2: ENERGY_TERMS not found")
     ap = [s for s in ef.body if isinstance(s, FUNC) and s.name == "apply_format"][0]
     ld = [s for s in ef.body if isinstance(s, FUNC) and s.name == "load"][0]
-    w_ok = any(isinstance(n, ast.For) and ast.unparse(n.iter) == "enumerate(self.ENERGY_TERMS)" for n in walk_local(ap))
-    r_ok = False
+    def off(e, v):
+        """e == v + k  ->  k  (None otherwise)"""
+        if isinstance(e, ast.Name) and e.id == v:
+            return 0
+        if isinstance(e, ast.BinOp) and isinstance(e.op, (ast.Add, ast.Sub)):
+            l, r = e.left, e.right
+            if isinstance(l, ast.Name) and l.id == v and isinstance(r, ast.Constant) and isinstance(r.value, int):
+                return r.value if isinstance(e.op, ast.Add) else -r.value
+            if isinstance(e.op, ast.Add) and isinstance(r, ast.Name) and r.id == v and isinstance(l, ast.Constant) and isinstance(l.value, int):
+                return l.value
+        return None
+
+    # writer: column(term t) = start + (offset of the FMT index w.r.t. the enumerate variable)
+    w_shift = None
+    for n in walk_local(ap):
+        if isinstance(n, ast.For) and isinstance(n.iter, ast.Call) and last_name(n.iter) == "enumerate" and n.iter.args and ast.unparse(n.iter.args[0]) == "self.ENERGY_TERMS" and isinstance(n.target, ast.Tuple) and isinstance(n.target.elts[0], ast.Name):
+            st_ = n.iter.args[1] if len(n.iter.args) > 1 else next((k.value for k in n.iter.keywords if k.arg == "start"), None)
+            start = st_.value if isinstance(st_, ast.Constant) else (0 if st_ is None else None)
+            v = n.target.elts[0].id
+            offs = {off(s_.slice, v) for s_ in walk_local(n) if isinstance(s_, ast.Subscript) and ast.unparse(s_.value) == "self.ENERGY_FMT"}
+            if start is not None and len(offs) == 1 and None not in offs:
+                w_shift = start + offs.pop()
+    w_ok = w_shift is not None
+    # reader: data[:, v + c] is stored under ENERGY_TERMS[v + b]  ->  column - term index = c - b
+    r_shift = None
+    lfl = flow_of(ld)
     for n in walk_local(ld):
-        # <dict>[self.ENERGY_TERMS[v]] = <table>[:, v + 1]
-        if isinstance(n, ast.Assign) and isinstance(n.targets[0], ast.Subscript) and isinstance(n.targets[0].slice, ast.Subscript) and ast.unparse(n.targets[0].slice.value) == "self.ENERGY_TERMS" and isinstance(n.targets[0].slice.slice, ast.Name):
-            v = n.targets[0].slice.slice.id
-            val = n.value
-            if isinstance(val, ast.Subscript) and isinstance(val.slice, ast.Tuple) and len(val.slice.elts) == 2 and isinstance(val.slice.elts[0], ast.Slice) and ast.unparse(val.slice.elts[1]).replace(" ", "") in (f"{v}+1", f"1+{v}"):
-                r_ok = True
+        if isinstance(n, ast.Assign) and isinstance(n.targets[0], ast.Subscript) and isinstance(n.value, ast.Subscript) and isinstance(n.value.slice, ast.Tuple) and len(n.value.slice.elts) == 2 and isinstance(n.value.slice.elts[0], ast.Slice):
+            keyexpr = deref(lfl, n.targets[0].slice, lfl.cfg.node_of(n))[0]
+            if isinstance(keyexpr, ast.Subscript) and ast.unparse(keyexpr.value) == "self.ENERGY_TERMS":
+                names_ = [x.id for x in ast.walk(keyexpr.slice) if isinstance(x, ast.Name)]
+                if len(names_) == 1:
+                    b_, c_ = off(keyexpr.slice, names_[0]), off(n.value.slice.elts[1], names_[0])
+                    if b_ is not None and c_ is not None:
+                        r_shift = c_ - b_
+    r_ok = r_shift is not None and w_shift == r_shift == 1
     if w_ok and r_ok and len(efmt) >= 1 + len(terms):
         ctx.ok(rid, ap, f"energy.txt: writer and reader index the same ENERGY_TERMS {terms} in the same order after one step column")
     else:
@@ -302,7 +329,7 @@ def r144(ctx):
     gparams = [a.arg for a in gen.args.args]
     tdir = gparams[1] if len(gparams) > 1 else "target_dir"
     for n in walk_local(gen):
-        if isinstance(n, ast.Assign) and isinstance(n.targets[0], ast.Name) and isinstance(n.value, ast.Call) and dotted(n.value.func) == "os.path.join":
+        if isinstance(n, ast.Assign) and isinstance(n.value, ast.Call) and dotted(n.value.func) == "os.path.join":
             if n.value.args and path_of(n.value.args[0]) == tdir:
                 okg = True
                 ctx.ok(rid, n, "_generate_file_names: destination = os.path.join(target_dir, <file name>)")
